@@ -225,34 +225,24 @@ pub proof fn lemma_log_facts(p: &Partition)
     if a.len() > 0 { assert(a[a.len() - 1].offset == last_seg(p).start_offset + a.len() - 1); }
     if log(p).len() > 0 { assert(log(p)[log(p).len() - 1].offset == first_retained(p) + log(p).len() - 1); }
 }
-// the cache, when it holds anything, is a contiguous run ending at the current offset and starting inside the log
-pub proof fn lemma_cache_facts(p: &Partition)
-    requires read_wf(p), cache_msgs(p).len() > 0,
-    ensures
-        p.segments@.len() > 0,
-        contig(cache_msgs(p), cache_msgs(p)[0].offset as int),
-        cache_msgs(p)[0].offset + cache_msgs(p).len() == p.current_offset + 1,
-        cache_msgs(p)[0].offset >= first_retained(p),
-        cache_msgs(p)[0].offset - first_retained(p) == log(p).len() - cache_msgs(p).len(),
-{
-    if p.segments@.len() == 0 { assert(log(p).len() == 0); }
-    lemma_log_facts(p);
-    let l = log(p); let c = cache_msgs(p); let k = l.len() - c.len();
-    assert forall|i: int| 0 <= i < c.len() implies (#[trigger] c[i]).offset == c[0].offset + i by {
-        assert(c[i] == l[k + i]); assert(c[0] == l[k]);
-    }
-    assert(c[0] == l[k]);
-}
-// [C02.cache]: what the cache path returns for a hit — slice_of(cache, start, end) — is the slice of the log
+// [C02.cache]: what the cache path returns for a hit at or above the earliest retained offset — slice_of(cache, start, end)
+// — is the slice of the log
 pub proof fn lemma_cache_hit(p: &Partition, start: int, end: int)
-    requires read_wf(p), cache_msgs(p).len() > 0, cache_msgs(p)[0].offset <= start <= end <= p.current_offset,
-    ensures slice_of(cache_msgs(p), start, end) == slice_of(log(p), start, end), start >= first_retained(p),
+    requires read_wf(p), cache_msgs(p).len() > 0, cache_msgs(p)[0].offset <= start <= end <= p.current_offset, start >= first_retained(p),
+    ensures slice_of(cache_msgs(p), start, end) == slice_of(log(p), start, end),
 {
-    lemma_cache_facts(p); lemma_log_facts(p);
-    let l = log(p); let c = cache_msgs(p); let k = l.len() - c.len();
-    lemma_slice_window(c, c[0].offset as int, start, end);
-    lemma_slice_window(l, first_retained(p), start, end);
-    assert(window(c, c[0].offset as int, start, end) =~= window(l, first_retained(p), start, end));
+    lemma_log_facts(p);
+    let l = log(p); let c = cache_msgs(p); let c0 = c[0].offset as int; let f = first_retained(p);
+    lemma_slice_window(c, c0, start, end);
+    lemma_slice_window(l, f, start, end);
+    let wc = window(c, c0, start, end); let wl = window(l, f, start, end);
+    assert(wc.len() == wl.len());
+    assert forall|k: int| 0 <= k < wc.len() implies wc[k] == wl[k] by {
+        assert(wc[k] == c[start - c0 + k]);
+        assert(c[start - c0 + k].offset == start + k);
+        assert(wl[k] == l[start - f + k]);
+    }
+    assert(wc =~= wl);
 }
 // clamping the end of the range to the newest offset does not change the slice
 pub proof fn lemma_end_clamp(p: &Partition, start: int, count: int, end: int)
@@ -610,8 +600,7 @@ pub proof fn lemma_keep_none(s: Seq<RetainedMessage>, f: spec_fn(RetainedMessage
 // a segment whose end_timestamp is below the query holds no message of the answer
 pub proof fn lemma_ts_skip(segs: Seq<Segment>, i: int, t: int)
     requires
-        0 <= i < segs.len(), segs[i].end_timestamp < t,
-        forall|j: int| 0 <= j < seg_all(&segs[i]).len() ==> (#[trigger] seg_all(&segs[i])[j]).timestamp <= segs[i].end_timestamp,
+        0 <= i < segs.len(), segs[i].end_timestamp < t, seg_ts_wf(&segs[i]),
     ensures seq_keep(log_upto(segs, i + 1), ts_ge(t)) == seq_keep(log_upto(segs, i), ts_ge(t)),
 {
     let a = seg_all(&segs[i]);
